@@ -13,6 +13,25 @@
 (* and may create new operators, but every pre-existing entry of owned and *)
 (* ops is unchanged (frame condition), and a call whose signature was seen *)
 (* before returns the remembered result.                                   *)
+(*                                                                         *)
+(* ARGUMENTS.  A call receives caller-owned arrays as arguments (right- and *)
+(* left-hand sides of products and solves, initial guesses, start vectors, *)
+(* index arrays, the arrays an operator is constructed from).  NumPy hands *)
+(* one and the same VALUE over in many memory LAYOUTS: 1-D, (n,1) column,  *)
+(* C-ordered, Fortran-ordered, transposed view, strided (non-contiguous)   *)
+(* slice, negative strides, read-only.  For the specification a layout is  *)
+(* just another caller-owned array - owned[a] = <<value, layout>> - and    *)
+(*   (1) the frame condition owned' = owned holds for an argument in EVERY *)
+(*       layout (bytes of the array, of the buffer it is a view of, and    *)
+(*       its shape / strides / flags): CallOnArgument, ArgumentsFrame;     *)
+(*   (2) the layout is NOT part of a call's signature: the result is a     *)
+(*       function of the value of the arguments, so two calls that differ  *)
+(*       only in the layout of an argument return the same result (MemoOk  *)
+(*       with a layout-free signature).  In particular a read-only array   *)
+(*       is an argument like any other: a routine that raises because it   *)
+(*       tried to write into it returns something else than it does on the *)
+(*       writable array of equal value, which violates (2) - besides       *)
+(*       showing that (1) only held by the grace of the flag.              *)
 (***************************************************************************)
 EXTENDS Integers, Sequences, FiniteSets, TLC
 
@@ -30,7 +49,13 @@ Call(sig, res, created) ==
     /\ MemoOk(memo, sig, res)
     /\ memo' = Remember(memo, sig, res)
 
+(* a call one of whose arguments is the caller-owned array `arg` (in whatever layout owned[arg] records) *)
+CallOnArgument(sig, res, created, arg) ==
+    /\ arg \in DOMAIN owned
+    /\ Call(sig, res, created)
+
 (* consequences, checked on the enumerating model *)
+ArgumentsFrame == [][\A a \in DOMAIN owned: a \in DOMAIN owned' /\ owned'[a] = owned[a]]_<<owned, ops, memo>>
 Persistence == [][FrameArrays(owned, owned') /\ FrameOps(ops, ops')]_<<owned, ops, memo>>
 MemoStable == [][\A s \in DOMAIN memo: s \in DOMAIN memo' /\ memo'[s] = memo[s]]_<<owned, ops, memo>>
 =============================================================================
